@@ -2,7 +2,7 @@
    md5 is universally quantified everywhere (a Section variable in Model.v). *)
 From Coq Require Import String List Bool ZArith Permutation.
 Import ListNotations.
-Require Import V.Lib.PyStr V.Lib.JTree V.Memo.Model V.Memo.Proofs V.Memo.Entries V.Memo.Chain V.Memo.Regex V.Memo.Examples.
+Require Import V.Lib.PyStr V.Lib.JTree V.Memo.Model V.Memo.Proofs V.Memo.Entries V.Memo.Chain V.Memo.Regex V.Memo.Order V.Memo.Examples.
 Open Scope string_scope.
 
 (* The closed form [serialise] is the coded traversal applied to the info dictionary. *)
@@ -149,6 +149,48 @@ Theorem C16_regex_is_tokens_graph : forall md5 fuzzy g,
 Proof. exact infos_chars_tokens. Qed.
 Print Assumptions C16_regex_is_tokens_graph.
 
+(* The ORDER of the loop.  [simul subs w] is the simultaneous substitution of one word (the replacement of the
+   reference the word is, the word itself otherwise).  When no reference is visited before a different reference
+   in which it occurs ([ordered]), the references begin and end with a word character ([edges_ok]) and do not
+   occur in a replacement ([inert]), the one-after-the-other rewriting of a command line whose words are
+   references or contain no reference ([plain_word]) is the simultaneous substitution, word by word ... *)
+Theorem C16_visit_order : forall subs ws,
+  subs_ok subs = true -> edges_ok subs = true -> ordered subs = true -> inert subs = true ->
+  forallb (plain_word subs) ws = true ->
+  rewrite_all subs (join " " ws) = join " " (map (simul subs) ws).
+Proof. exact ordered_simul. Qed.
+Print Assumptions C16_visit_order.
+
+(* ... longest spelling first is such an order ... *)
+Theorem C16_longest_first : forall subs ws,
+  subs_ok subs = true -> edges_ok subs = true -> longest_first subs = true -> inert subs = true ->
+  forallb (plain_word subs) ws = true ->
+  ordered subs = true /\ rewrite_all subs (join " " ws) = join " " (map (simul subs) ws).
+Proof. exact longest_first_simul. Qed.
+Print Assumptions C16_longest_first.
+
+(* ... so for the code's loop [args_chars] on blank-delimited arguments ... *)
+Theorem C16_visit_order_args : forall md5 fuzzy ph disc order c ws subs,
+  c_args c = blanks ws -> subs_of md5 fuzzy ph disc (c_refs c) order = Some subs ->
+  subs_ok subs = true -> edges_ok subs = true -> ordered subs = true -> inert subs = true ->
+  forallb (plain_word subs) (map (tok_text (c_refs c)) ws) = true ->
+  args_chars md5 fuzzy ph disc order c = Some (join " " (map (simul subs) (map (tok_text (c_refs c)) ws))).
+Proof. exact ordered_args. Qed.
+Print Assumptions C16_visit_order_args.
+
+(* ... and two such orders of the same distinct references give the same arguments (e.g. ties between references
+   of equal length may be broken either way).  Shortest first is refuted (Refuted.C16_shortest_first_refuted); the
+   code's sort key is the length of the absolute reference string, which is not the spelling substituted, and its
+   order is not always [ordered]: Refuted.C16_sort_key_refuted (open F16e). *)
+Theorem C16_order_independent : forall subs subs' ws,
+  Permutation subs subs' -> NoDup (map fst subs) ->
+  subs_ok subs = true -> edges_ok subs = true -> inert subs = true -> forallb (plain_word subs) ws = true ->
+  subs_ok subs' = true -> edges_ok subs' = true -> inert subs' = true -> forallb (plain_word subs') ws = true ->
+  ordered subs = true -> ordered subs' = true ->
+  rewrite_all subs (join " " ws) = rewrite_all subs' (join " " ws).
+Proof. exact order_independent. Qed.
+Print Assumptions C16_order_independent.
+
 (* non-vacuity: a producer and a consumer of its file out.txt and of an input; md5 s = "<s>" *)
 Definition ex_md5 (s : string) : string := "<" ++ s ++ ">".
 Definition ex_prod : comp := {| c_name := "gen"; c_stage := 0; c_location := "/tmp/i1"; c_exe := "echo";
@@ -194,3 +236,34 @@ Example C16_nonvacuous_regex :
   nth 1 (infos_chars ex_md5 false g) None =
     Some {| i_files := ["<OUT>:ref"; "<abc>:ref"]; i_exe := "cat"; i_args := "file:<OUT>:ref file:<abc>:ref"; i_image := None |}.
 Proof. vm_compute. repeat split; reflexivity. Qed.
+
+(* non-vacuity of the hypotheses of C16_visit_order / _args / C16_longest_first / C16_order_independent: a consumer
+   of out.txt of the producers gen and pre-gen of its stage and of an input, in the order the code computes
+   ([code_order]: by the length of the ABSOLUTE strings, so input/in.txt:ref comes after the shorter gen/out.txt:ref:
+   the order is [ordered] without being longest-spelling-first; the two references to producers are) *)
+Definition ex_tail : comp := {| c_name := "consumer"; c_stage := 0; c_location := "/tmp/i1"; c_exe := "diff";
+  c_args := blanks [TRef 1; TLit "-q"; TRef 0; TRef 2];
+  c_refs := [ {| d_key := "stage0.gen/out.txt:ref"; d_text := "gen/out.txt:ref"; d_location := ""; d_mtime := 0; d_prod := Some 0%nat;
+                 d_fileref := "out.txt"; d_method := "ref"; d_state := FFile "ONE" |};
+              {| d_key := "stage0.pre-gen/out.txt:ref"; d_text := "pre-gen/out.txt:ref"; d_location := ""; d_mtime := 0; d_prod := Some 1%nat;
+                 d_fileref := "out.txt"; d_method := "ref"; d_state := FFile "TWO" |};
+              {| d_key := "input/in.txt:ref"; d_text := "input/in.txt:ref"; d_location := ""; d_mtime := 0; d_prod := None;
+                 d_fileref := ""; d_method := "ref"; d_state := FFile "abc" |} ];
+  c_backend := BLocal |}.
+Example C16_nonvacuous_order :
+  let disc := ["gen/out.txt:ref"; "pre-gen/out.txt:ref"; "input/in.txt:ref"] in
+  let ph := fun _ : nat => @None string in
+  code_order (c_refs ex_tail) = [1; 0; 2]%nat /\
+  exists subs, subs_of ex_md5 false ph disc (c_refs ex_tail) (code_order (c_refs ex_tail)) = Some subs /\
+    map fst subs = ["pre-gen/out.txt:ref"; "gen/out.txt:ref"; "input/in.txt:ref"] /\
+    subs_ok subs = true /\ edges_ok subs = true /\ ordered subs = true /\ inert subs = true /\
+    longest_first subs = false /\ longest_first (firstn 2 subs) = true /\ inert (firstn 2 subs) = true /\
+    NoDup (map fst subs) /\
+    forallb (plain_word subs) (map (tok_text (c_refs ex_tail)) [TRef 1; TLit "-q"; TRef 0; TRef 2]) = true /\
+    args_chars ex_md5 false ph disc (code_order (c_refs ex_tail)) ex_tail = Some "file:<TWO>:ref -q file:<ONE>:ref file:<abc>:ref" /\
+    args_chars ex_md5 false ph disc [0; 1; 2]%nat ex_tail = Some "pre-file:<ONE>:ref -q file:<ONE>:ref file:<abc>:ref".
+Proof.
+  cbv zeta. split; [vm_compute; reflexivity|]. eexists. split; [vm_compute; reflexivity|].
+  repeat split; try (vm_compute; reflexivity).
+  vm_compute. repeat (constructor; [cbn; intuition discriminate|]). constructor.
+Qed.
